@@ -186,7 +186,7 @@ theorem sortTraits_perm (l : List TraitDesc) : (sortTraits l).Perm l := by
 /-- the description `genTraits` builds for column `j` -/
 def mkTrait (o : Options) (vs : List Value) (p : Nat × TraitCol) : TraitDesc :=
   { name := p.2.name, ty := p.2.ty, fam := p.2.fam, parsable := o.parsable.contains p.2.name,
-    rows := (rowsOf vs p.1 p.2.ty).filter (keepRow {} vs), col := p.1 }
+    rows := (rowsOf vs p.1 p.2.ty).filter (keepRow {} vs) }
 
 theorem genTraits_ok {o : Options} {cols : List TraitCol} {first : Value} {rest : List Value} {ts : List TraitDesc}
     (h : genTraits {} o cols (first :: rest) = .ok ts) :
@@ -440,6 +440,30 @@ theorem numericTry_none_of_list (g : GenFull) (c : Codec) (signed : Bool) (x : I
 theorem numericTry_none (g : GenFull) (c : Codec) (signed : Bool) (x : Int) (h : ∀ ty, g.base.parse ⟨ty, .int x⟩ = none) :
     numericTry {} g c signed x = none :=
   numericTry_none_of_list g c signed x (fun t _ => h t.ty)
+
+/-- a predicate that implies another and misses one element the other has selects strictly fewer -/
+theorem filter_length_lt {α : Type} (p q : α → Bool) (l : List α) (hpq : ∀ x, p x = true → q x = true)
+    (a : α) (ha : a ∈ l) (hqa : q a = true) (hpa : p a = false) :
+    (l.filter p).length < (l.filter q).length := by
+  induction l with
+  | nil => cases ha
+  | cons x xs ih =>
+    have hle : (xs.filter p).length ≤ (xs.filter q).length := by
+      clear ih ha
+      induction xs with
+      | nil => simp
+      | cons y ys ih2 =>
+        simp only [List.filter_cons]
+        cases hy : p y
+        · cases q y <;> simp <;> omega
+        · rw [hpq y hy]; simp; exact ih2
+    simp only [List.filter_cons]
+    rcases List.mem_cons.mp ha with rfl | ha'
+    · rw [hpa, hqa]; simp; omega
+    · have := ih ha'
+      cases hx : p x
+      · cases q x <;> simp <;> omega
+      · rw [hpq x hx]; simp; exact this
 
 /-- membership in the list a numeric block ranges over -/
 theorem mem_numericTraits {g : GenFull} {c : Codec} {signed : Bool} {t : TraitDesc} :
